@@ -468,6 +468,14 @@ impl<'a> Trainer<'a> {
         let mut type_ngram_weights: BTreeMap<_, Vec<_>> = BTreeMap::new();
         let mut dict_weights = vec![(0, 0, 0); usize::from(self.dict_word_max_len)];
 
+        #[cfg(feature = "verif-hooks")]
+        {
+            crate::verif_hooks::push(crate::verif_hooks::TraceItem::Quant(
+                weight_max.to_bits(),
+                quantize_multiplier.to_bits(),
+            ));
+            crate::verif_hooks::push(crate::verif_hooks::TraceItem::RawBias(bias.to_bits()));
+        }
         let bias = unsafe { (bias / quantize_multiplier).to_int_unchecked::<i32>() };
         #[cfg(feature = "verif-hooks")]
         crate::verif_hooks::push(crate::verif_hooks::TraceItem::Bias(bias));
@@ -476,10 +484,16 @@ impl<'a> Trainer<'a> {
             let raw_weight = model.feature_coefficient(i32::try_from(fid)?, wb_idx);
             let weight = unsafe { (raw_weight / quantize_multiplier).to_int_unchecked::<i32>() };
             #[cfg(feature = "verif-hooks")]
-            crate::verif_hooks::push(crate::verif_hooks::TraceItem::Feature(
-                feature.verif_describe(),
-                weight,
-            ));
+            {
+                crate::verif_hooks::push(crate::verif_hooks::TraceItem::Feature(
+                    feature.verif_describe(),
+                    weight,
+                ));
+                crate::verif_hooks::push(crate::verif_hooks::TraceItem::RawFeature(
+                    feature.verif_describe(),
+                    raw_weight.to_bits(),
+                ));
+            }
 
             if weight == 0 {
                 continue;
